@@ -25,39 +25,63 @@ def steps_alphabet():
 
 
 def run_history(tid, hist):
+    """hist: steps (host, domain, cookies, user[, host option index or None[, redirect]]).  A step with the redirect flag
+    answers 302 (with its Set-Cookie lines) and points to the host of the next step: both requests belong to one
+    connect() call.  The host option (a custom Host header) must not change which cookies are looked up."""
     import websocket
     import websocket._handshake as HS
     HS.CookieJar.jar.clear()
     ev = [{"ev": "begin", "tid": tid, "i": 0}]
-    for (hi, di, ci, ui) in hist:
-        hlabels, htext = HOSTS[hi]
-        dlabels, dtext = DOMAINS[di]
-        cookies = COOKIES[ci]
-        user = USERS[ui]
-        spec = dict(OKHEAD)
-        spec["extra"] = ["Set-Cookie: %s=%s%s" % (n, v, "; Domain=" + dtext if dtext is not None else "") for n, v in cookies]
+    hist = [tuple(s) + (None, False)[len(s) - 4:] for s in hist]
+    k = 0
+    while k < len(hist):
+        chain = [hist[k]]
+        while chain[-1][5] and k + len(chain) < len(hist):
+            chain.append(hist[k + len(chain)])
+        specs = []
+        for j, (hi, di, ci, ui, oi, redir) in enumerate(chain):
+            dlabels, dtext = DOMAINS[di]
+            spec = dict(OKHEAD)
+            spec["extra"] = ["Set-Cookie: %s=%s%s" % (n, v, "; Domain=" + dtext if dtext is not None else "") for n, v in COOKIES[ci]]
+            if j + 1 < len(chain):
+                spec["status"] = 302
+                spec["location"] = "ws://%s/" % HOSTS[chain[j + 1][0]][1]
+            specs.append(spec)
         peers = []
 
-        def factory(world, sock, address, spec=spec):
-            p = HeadPeer(world, spec, None)
+        def factory(world, sock, address, specs=specs):
+            p = HeadPeer(world, specs[min(len(peers), len(specs) - 1)], None)
             peers.append(p)
             return p
         w = World(resolver={"*": ["10.1.1.1"]}, peer_factory=factory)
+        user = USERS[chain[0][3]]
+        oi = chain[0][4]
         with w:
             ws = websocket.WebSocket()
             ws.settimeout(3)
             kw = {"cookie": user} if user else {}
-            ws.connect("ws://%s/" % htext, **kw)
-        req = bytes(peers[0].req).split(b"\r\n")
-        ck = [l for l in req if l.lower().startswith(b"cookie:")]
-        sent = []
-        if ck:
-            sent = [x for x in ck[0].split(b":", 1)[1].strip().decode("latin-1").split("; ")]
-        if len(ck) > 1:
-            sent = ["<two Cookie headers>"]
-        ev.append({"ev": "step", "tid": tid, "i": len(ev), "host": hlabels, "user": user, "sent": sent,
-                   "domain": dlabels, "cookies": [[n, v] for n, v in cookies],
-                   "text": {"host": htext, "domain": dtext if dtext is not None else "(none)"}})
+            if oi is not None:
+                kw["host"] = HOSTS[oi][1]
+            try:
+                ws.connect("ws://%s/" % HOSTS[chain[0][0]][1], **kw)
+            except Exception as e:      # noqa   (a redirect as last step of a history: too many redirects etc.)
+                if len(peers) < len(chain):
+                    raise
+        for j, (hi, di, ci, ui, _oi, redir) in enumerate(chain):
+            hlabels, htext = HOSTS[hi]
+            dlabels, dtext = DOMAINS[di]
+            req = bytes(peers[j].req).split(b"\r\n")
+            ck = [l for l in req if l.lower().startswith(b"cookie:")]
+            sent = []
+            if ck:
+                sent = [x for x in ck[0].split(b":", 1)[1].strip().decode("latin-1").split("; ")]
+            if len(ck) > 1:
+                sent = ["<two Cookie headers>"]
+            ev.append({"ev": "step", "tid": tid, "i": len(ev), "host": hlabels, "user": user, "sent": sent,
+                       "domain": dlabels, "cookies": [[n, v] for n, v in COOKIES[ci]],
+                       "text": {"host": htext, "domain": dtext if dtext is not None else "(none)",
+                                "host_option": HOSTS[oi][1] if oi is not None else "(none)", "redirect": bool(redir and j + 1 < len(chain))}})
+        k += len(chain)
     ev.append({"ev": "end", "tid": tid, "i": len(ev)})
     HS.CookieJar.jar.clear()
     return ev
@@ -81,6 +105,23 @@ def histories(rng, tier):
                     out.append([(4, d1, c1, 0), (4, d2, c2, 0), (rng.choice([0, 1, 5, 6]), len(DOMAINS) - 1, 0, rng.randrange(2))])
     for _ in range(1500 if tier == "quick" else 30000):
         out.append([rng.choice(alpha) for _ in range(rng.randrange(2, 5 if tier == "quick" else 7))])
+    nodom = len(DOMAINS) - 1
+    # the host option (custom Host header) names another host than the URL: the jar is looked up for the URL's host
+    for di in (0, 3, 4):
+        for hi in range(len(HOSTS)):
+            for oi in range(len(HOSTS)):
+                if oi != hi and (tier == "thorough" or rng.random() < 0.5):
+                    out.append([(0, di, rng.randrange(len(COOKIES)), 0), (hi, nodom, 0, rng.randrange(2), oi)])
+    # cookies set by a redirect response are stored like any other: sent to the next hop and later, where covered
+    for di in range(len(DOMAINS)):
+        for h1 in (0, 2, 4):
+            for h2 in range(len(HOSTS)):
+                if tier == "quick" and rng.random() < 0.4:
+                    continue
+                ci = rng.randrange(len(COOKIES))
+                out.append([(h1, di, ci, rng.randrange(2), None, True), (h2, nodom, 0, 0), (rng.randrange(len(HOSTS)), nodom, 0, 0)])
+                out.append([(h1, di, ci, 0, None, True), (h2, rng.randrange(len(DOMAINS)), rng.randrange(len(COOKIES)), 0, None, True),
+                            (rng.randrange(len(HOSTS)), nodom, 0, 0), (rng.randrange(len(HOSTS)), nodom, 0, 0)])
     return out
 
 
@@ -115,7 +156,8 @@ def main(ctx):
     for b in v["bad"]:
         h, t = by[b["tid"]]
         steps = [{"host": e["text"]["host"], "set_cookie_domain": e["text"]["domain"], "cookies": e["cookies"],
-                  "user": e["user"], "sent": e["sent"]} for e in t if e["ev"] == "step"]
+                  "user": e["user"], "sent": e["sent"], "host_option": e["text"]["host_option"], "redirect": e["text"]["redirect"]}
+                 for e in t if e["ev"] == "step"]
         ctx.deviation(None, "history %s: step %d breaks %s: %s" % (b["tid"], b["at"], b["why"], json.dumps(steps)),
                       {"history": [list(s) for s in h], "steps": steps, "clause": b["why"], "at": b["at"]})
     for h in hs:
